@@ -20,7 +20,7 @@ def intD (j : Json) (k : String) : Int :=
 
 def caseOf (j : Json) : R Case := do
   pure { scenario := ← strF j "scenario", panicSite := ← strF j "panicSite", coolDownNs := ← natF j "coolDownNs",
-         intervalNs := ← natF j "intervalNs", latencyNs := ← natF j "latencyNs", services := ← natF j "services",
+         intervalNs := ← natF j "intervalNs", latencyNs := ← natF j "latencyNs", services := ← natF j "services", work := natD j "work",
          auxMax := ← natF j "auxMax" }
 
 /-- canonical observation from the harness's `impl` object -/
@@ -43,7 +43,7 @@ def obsOf (impl : Json) : Obs :=
     bubbleEnded := boolD impl "bubbleEnded" false,
     after2ndServiceStart := natD after2 "serviceStart", after2ndService := natD after2 "service",
     panicsInjected := natD impl "panics", resumed := boolD impl "resumed" false, resumedWithinNs := within.toNat,
-    othersTicked := boolD impl "othersTicked" false }
+    othersTicked := boolD impl "othersTicked" false, pipelineDone := boolD impl "pipelineDone" false }
 
 def closeAtBucket (ns : Nat) : String :=
   if ns = 0 then "0" else if ns < 1000000 then "<1ms" else if ns < 1000000000 then "<1s"
@@ -60,7 +60,7 @@ def handle (input impl : Json) : R Reply := do
     decide (o.leakedServiceStart = m.leakedServiceStart) && decide (o.leakedService = m.leakedService) &&
     o.bubbleEnded == m.bubbleEnded &&
     decide (o.after2ndServiceStart = m.after2ndServiceStart) && decide (o.after2ndService = m.after2ndService) &&
-    (!panicClauseApplies cs o || (o.resumed == m.resumed && o.othersTicked == m.othersTicked))
+    (!panicClauseApplies cs o || (o.resumed == m.resumed && o.othersTicked == m.othersTicked && (decide (cs.work = 0) || o.pipelineDone == m.pipelineDone)))
   let agree := o.survived == m.survived && (died || agreeLive)
   let sm := spec cs m
   let si := spec cs o
